@@ -48,6 +48,10 @@ func c06Run(m *xpath.Machine, vals map[string]xpath.Datum) string {
 	return out + strconv.FormatBool(b) + "|" + s + "|" + strconv.FormatBool(res.IsNumber())
 }
 
+// a machine with several operands (so that a data-tree failure can strike after some of
+// them have been evaluated)
+var c06Other, _ = NewExprMachine("/sys/a + /sys/b = /sys/c", c02MapFn)
+
 // VerifH_C06_History
 func VerifH_C06_History() {
 	ti := vrt.Choice("template", len(c06Templates))
@@ -72,6 +76,15 @@ func VerifH_C06_History() {
 		c06Run(m2, map[string]xpath.Datum{"a": xpath.NewNumDatum(1)})
 	}
 	NewExprMachine("a +", c02MapFn)
+	// runs that FAIL in the data tree (of this machine and of another one), at a
+	// solver-chosen callback: a failed run must leave nothing behind either
+	failAt := 1 + vrt.Choice("failAt", 4)
+	for _, fm := range []*xpath.Machine{m, c06Other} {
+		if fm != nil {
+			tf := &mockTree{vals: vals, deflt: xpath.NewLiteralDatum("d"), failAt: failAt}
+			xpath.NewCtxFromCurrent(nil, fm, tf.root()).Run()
+		}
+	}
 	r2 := c06Run(m, vals)
 	r3 := c06Run(m, vals)
 	vrt.Observe("r1", r1)
